@@ -863,6 +863,10 @@ static void do_op(struct op *p)
 	} else if (!strcmp(n, "validate")) {
 		struct timespec now = iv_now;
 		alog(n, 0, 0, 0, 0, now.tv_sec * NSEC + now.tv_nsec, 0);
+	} else if (!strcmp(n, "tick")) {
+		/* the callback takes a[0] s + a[1] ns of (virtual) time; unlike "slow" it does not tell the library */
+		simk_advance((ns_t)p->a[0] * NSEC + p->a[1]);
+		tr("\"e\":\"Env\",\"op\":\"advance\",\"o\":0,\"n\":0,\"now\":[%lld,%lld]}", TS(vnow));
 	} else if (!strcmp(n, "warp_epoch")) {
 		/* this loop has been round a[0] more times already (see ivh_priv.c) */
 		extern void ivh_warp_epoch(unsigned int);
